@@ -52,6 +52,9 @@ ArgBx(p, pc) == (Hi(p, pc) % 4) * 65536 + Lo(p, pc)
 ArgSbx(p, pc) == ArgBx(p, pc) - 131071
 NK(p)        == Len(p.kt)
 IsVarArgFn(p) == (p.va \div 2) % 2 = 1
+(* VarArgHasArg: on entry the VM stores the implicit 'arg' value (table or  *)
+(* nil) in R(NumParameters), whether or not the body names it               *)
+HasArgSlot(p) == p.va % 2 = 1
 
 (* ---- multi-word groups ------------------------------------------------ *)
 (* number of words of the group whose head is the word at pc *)
@@ -122,8 +125,11 @@ WMax(p, q) ==
       [] o = OP_FORLOOP -> a + 3
       [] o = OP_TFORLOOP -> a + 2 + c
       [] OTHER -> -1
+(* function entry writes the parameters R(0)..R(np-1) and, with VarArgHasArg, *)
+(* the arg slot R(np); both are reported by the frame rules of ProtoViol       *)
+EntryWMax(p) == IF HasArgSlot(p) THEN p.np ELSE p.np - 1
 MaxWritten(p, s) ==
-    LET ws == {WMax(p, q) : q \in {x \in 0..NW(p) - 1 : s.h[x + 1]}} \cup {-1}
+    LET ws == {WMax(p, q) : q \in {x \in 0..NW(p) - 1 : s.h[x + 1]}} \cup {-1, EntryWMax(p)}
     IN CHOOSE m \in ws : \A x \in ws : x <= m
 
 (* boundaries + highest written register: computed once per prototype *)
@@ -278,7 +284,9 @@ InstrViol(p, hd, pc) ==
 ProtoViol(p, hd) ==
     LET n == NW(p) IN
     (IF p.nreg > FrameLimit THEN {"frame:NumUsedRegisters>limit"} ELSE {}) \cup
-    (IF p.np > p.nreg THEN {"frame:NumParameters>NumUsedRegisters"} ELSE {}) \cup
+    (IF p.np > p.nreg THEN {"frame:NumParameters>NumUsedRegisters"}
+     ELSE IF HasArgSlot(p) /\ p.np >= p.nreg
+          THEN {"frame:arg-slot(R(NumParameters))>=NumUsedRegisters"} ELSE {}) \cup
     (IF n = 0 THEN {"code:empty"}
      ELSE (IF hd.nxt # n THEN {"group:last-group-overruns-code"} ELSE {}) \cup
           (IF ~(hd.h[n] /\ Op(p, n - 1) = OP_RETURN) THEN {"code:last-instruction-not-RETURN"} ELSE {})) \cup
